@@ -190,7 +190,13 @@ func runSign[P any](d signDesc, payload P, alter func(P, int) P) ev.Result {
 		prot := refcbor.M(refcbor.I(1), refcbor.I(ai.id))
 		unprot := refcbor.M()
 		if d.Extra {
-			prot.Items = append(prot.Items, refcbor.I(300), refcbor.B([]byte{1, 2, 3}))
+			// a conforming foreign signer may protect parameters of any value kind, including null
+			n := 0
+			if pb, err := hex.DecodeString(d.Payload); err == nil {
+				n = len(pb) + len(d.AAD)
+			}
+			xv := []*refcbor.Node{refcbor.B([]byte{1, 2, 3}), refcbor.Null(), refcbor.U(7), refcbor.T("x"), refcbor.B(nil), refcbor.Bool(true)}[n%6]
+			prot.Items = append(prot.Items, refcbor.I(300), xv)
 			unprot.Items = append(unprot.Items, refcbor.I(4), refcbor.B([]byte("kid")))
 		}
 		protBytes := refcbor.Encode(prot)
@@ -262,8 +268,28 @@ func runSign[P any](d signDesc, payload P, alter func(P, int) P) ev.Result {
 			if err != nil {
 				return false
 			}
-			pm.Items = append(pm.Items, refcbor.I(int64(1000+d.Tamper.Arg%50)), refcbor.U(uint64(d.Tamper.Arg)))
-			a.Items[0].Bytes = refcbor.Encode(pm)
+			// the added parameter's value runs through every CBOR kind (a null or empty value still changes the bytes that were signed)
+			vals := []*refcbor.Node{refcbor.U(uint64(d.Tamper.Arg)), refcbor.Null(), refcbor.B(nil), refcbor.Bool(false), refcbor.T(""), refcbor.A(), refcbor.M(), refcbor.I(-1), refcbor.Tg(1, refcbor.U(0)), refcbor.U(0)}
+			switch (d.Tamper.Arg / 64) % 3 {
+			case 0, 1:
+				pm.Items = append(pm.Items, refcbor.I(int64(1000+d.Tamper.Arg%50)), vals[d.Tamper.Arg%len(vals)])
+			default:
+				// replace the value of an existing non-alg parameter, or add when there is none
+				done := false
+				for i := 0; i+1 < len(pm.Items); i += 2 {
+					if k, ok := refverify.NodeInt(pm.Items[i]); ok && k != 1 {
+						pm.Items[i+1], done = vals[d.Tamper.Arg%len(vals)], true
+					}
+				}
+				if !done {
+					pm.Items = append(pm.Items, refcbor.I(7), vals[d.Tamper.Arg%len(vals)])
+				}
+			}
+			nb := refcbor.Encode(pm)
+			if bytes.Equal(nb, a.Items[0].Bytes) {
+				return false
+			}
+			a.Items[0].Bytes = nb
 			return true
 		})
 	case "payload-bit":
@@ -623,7 +649,7 @@ func evalMac(d macDesc) ev.Result {
 func TestC13(t *testing.T) {
 	r := ev.Start(t, "C13")
 	defer r.Finish()
-	r.SetRule("sign1", "alg ∈ {ES256,ES384,RS256,RS384,PS256,PS384} × 6 static keys × payload shape {[]byte, struct, RawBytes} × size class (0..5000) × attached/detached × AAD × extra protected header × signer {library, independent reference}; 2/3 of cases carry one tamper (bit of signature / protected map change / payload bit / AAD / foreign key of same or other type / impossible signature lengths incl. r‖0000‖s / alg header replaced by unregistered, mismatched, mistyped or missing id / detached override). Oracle: genuine objects verify under the library AND the reference and re-encode identically; tampered objects yield (false,nil) or an error, never true (unless the reference also accepts), never a panic. Non-trivial: every negative case, reference-signed positives and positives whose r or s has a leading zero byte; distinct by descriptor.")
+	r.SetRule("sign1", "alg ∈ {ES256,ES384,RS256,RS384,PS256,PS384} × 6 static keys × payload shape {[]byte, struct, RawBytes} × size class (0..5000) × attached/detached × AAD × extra protected header × signer {library, independent reference}; 2/3 of cases carry one tamper (bit of signature / protected map change: a parameter added or an existing one replaced with a value of every CBOR kind incl. null and empty / payload bit / AAD / foreign key of same or other type / impossible signature lengths incl. r‖0000‖s / alg header replaced by unregistered, mismatched, mistyped or missing id / detached override). Oracle: genuine objects verify under the library AND the reference and re-encode identically; tampered objects yield (false,nil) or an error, never true (unless the reference also accepts), never a panic. Non-trivial: every negative case, reference-signed positives and positives whose r or s has a leading zero byte; distinct by descriptor.")
 	ev.Rapid(r, "sign1", ev.N{Quick: 12000, Thorough: 400000}, genSign, evalSign)
 	r.SetRule("siglen-sweep", "exhaustive: every alg × every impossible-length construction (12, incl. r‖0000‖s and 0^k‖r‖0^k‖s) × attached/detached")
 	ev.Enum(r, "siglen-sweep", true, func(yield func(signDesc) bool) {
